@@ -330,11 +330,11 @@ func c14Required(c *Ctx) {
 	const rule = "the JSON targeter returns ErrNoMethod / ErrNoURL for an empty method / url before it writes anything into the caller's Target, and propagates the lexer's error"
 	ctor := c.P.Func("lib", "NewJSONTargeter")
 	key := "required-fields:lib.NewJSONTargeter"
-	if ctor == nil || len(ctor.AnonFuncs) != 1 {
+	if returnedClosure(ctor) == nil {
 		c.Undecided(key, rule, "closure not found")
 		return
 	}
-	cl := ctor.AnonFuncs[0]
+	cl := returnedClosure(ctor)
 	var firstWrite ssa.Instruction
 	eachInstr(cl, func(i ssa.Instruction) {
 		if st, ok := i.(*ssa.Store); ok {
